@@ -186,9 +186,24 @@ def b3(ctx, rid):
             raise core.AnchorLost(fid)
         for comp in comps:
             key = 'component|%s|%s' % (m, comp)
-            hit = [c for c in f.calls if c.name == m and comp in prims.field_of_receiver(f, c)]
-            if hit:
-                ctx.ok(rid, key, hit[0].where(), '%s reaches the `%s` component' % (m, comp))
+            hit = [c for c in f.calls if c.name == m and comp in prims.field_of_receiver(f, c) and c.bb in f.reachable()]
+            rets = [i for i in f.reachable() if f.blocks[i]['t']['k'] == 'return']
+            skipped = m != 'checked_add_assign' and hit and any(r in f.reach_from([0], avoid_exit=[c.bb for c in hit]) for r in rets)
+            if skipped:
+                # a component may decline for itself (`if !self.bloom.is_offloaded() { self.bloom.add(..) }`): tolerated when every
+                # decision in front of the call asks that same component
+                own = True
+                sws = [sw for c in hit for sw in core.deciding_switches(f, c.bb)]
+                for sw in sws:
+                    ogs = core.origins(f, f.blocks[sw]['t']['o'])
+                    if not ogs or not all(o.kind == 'call' and comp in prims.field_of_receiver(f, o.data) for o in ogs):
+                        own = False
+                if sws and own:
+                    skipped = False
+            if skipped:
+                ctx.bad(rid, key, hit[0].where(), 'CombinedFilter::%s can return without applying `%s` to its `%s` component (an early return): keys %s that component' % (m, m, comp, 'are missing from' if m != 'clear_filter' else 'stay in'))
+            elif hit:
+                ctx.ok(rid, key, hit[0].where(), '%s reaches the `%s` component%s' % (m, comp, ' on every path' if m != 'checked_add_assign' else ''))
             else:
                 ctx.bad(rid, key, f.where(), 'CombinedFilter::%s does not apply `%s` to its `%s` component: keys %s that component' % (m, m, comp, 'are missing from' if m != 'clear_filter' else 'stay in'))
     # merge succeeds only if every component merged: the returned bool depends on all component results
@@ -906,6 +921,56 @@ def b16(ctx, rid):
         ctx.bad(rid, key, f.where(), 'serialize_filters returns the bloom offset `%s` but appends `%s` bytes before the bloom bytes' % (affine.show(ret), affine.show(bloom_pos)))
 
 
+def b17(ctx, rid):
+    """the merged filter a storage reports for itself (BloomProvider::get_filter - what a HierarchicalFilters over storages prunes
+    by) describes every blob or is None.  The root filter of the closed blobs is None both when there are no closed blobs and when
+    a merge mismatch made it `unknown`; the answer may therefore only be None or be built from that root filter (with the active
+    blob's filter merged in) - the active blob's filter alone is returned at most behind a test that the closed list is empty."""
+    prog = ctx.prog
+    n = 0
+    for f in prog.fns.values():
+        if not (f.is_coroutine and f.file == 'src/storage/core.rs' and 'BloomProvider' in f.id and prog.fns[f.id].root.endswith('::get_filter')):
+            continue
+        n += 1
+        key = 'storage-filter-covers-closed-blobs|%s' % prog.fns[f.id].root
+        bad = None
+        ogs, work, seen = [], list(core.origins(f, 0)), set()
+        while work:
+            o = work.pop()
+            if o.key() in seen:
+                continue
+            seen.add(o.key())
+            if o.kind == 'agg' and o.data.get('ops'):
+                for x in o.data['ops']:     # a tuple / Some(..) the answer is taken out of
+                    work += core.origins(f, x)
+            else:
+                ogs.append(o)
+        calls = [o.data for o in ogs if o.kind == 'call']
+        root = [c for c in calls if any('HierarchicalFilters' in t for t in prog.resolve(c))]
+        alone = [c for c in calls if not any('HierarchicalFilters' in t for t in prog.resolve(c))]
+        for c in alone:
+            # tolerated behind an emptiness test of the closed list
+            guarded = False
+            for (dbb, si, k, r) in f.defs().get(0, []):
+                if dbb not in f.reachable():
+                    continue
+                for sw in core.deciding_switches(f, dbb):
+                    lv = core.scalar_leaves(prog, f, f.blocks[sw]['t']['o'], depth=1)
+                    if ('call', 'is_empty') in lv or ('call', 'len') in lv:
+                        guarded = True
+            if not guarded:
+                bad = c
+        if not root:
+            ctx.bad(rid, key, f.where(), 'the storage-level filter is not built from the root filter of the closed blobs')
+        elif bad is not None:
+            ctx.bad(rid, key, bad.where(), 'the storage-level filter can be the result of `%s` alone, without the root filter of the closed blobs: when that root filter is None '
+                    'because of a merge mismatch (not because there are no closed blobs), keys of the closed blobs are answered `definitely absent`' % bad.name)
+        else:
+            ctx.ok(rid, key, f.where(), 'None, or the closed-blob root filter (+ active filter merged in)')
+    if n < 1:
+        raise core.AnchorLost('Storage as BloomProvider::get_filter: %d' % n)
+
+
 RULES = [
     Rule('C10.B1', 'every `definitely absent` answer lies in its owner and is controlled by that owner\'s justifying test; defaults are NeedAdditionalCheck', b1, 11),
     Rule('C10.B2', 'filter.add(key) dominates every insertion into the in-memory header map', b2, 2),
@@ -922,5 +987,6 @@ RULES = [
     Rule('C10.B14', 'no decision is carried from a released guard into a later write section of the same filter lock (C08.D7 instances)', b14, 1),
     Rule('C10.B15', 'a child slot of the closed list is only filled in add_child (whose filter merge B4 verifies)', b15, 1),
     Rule('C10.B16', 'the bloom offset reported by the filter (de)serializer equals the position of the bloom bytes (affine layout algebra)', b16, 2),
+    Rule('C10.B17', 'the filter a storage reports for itself is None or built from the closed-blob root filter, never the active filter alone', b17, 1),
     Rule('C10.B9', 'the range merge can extend both bounds in one call', b9, 1),
 ]
